@@ -22,7 +22,8 @@ type c11Case struct {
 type c11Sys struct {
 	s               *emulator.System
 	seed            uint32
-	rom, wram, sram []byte // golden copies
+	rom, wram, sram []byte  // golden copies
+	parent          *c11Sys // the System this one was copied from, if any
 }
 
 func c11Fill(seed uint32) *c11Sys {
@@ -40,6 +41,28 @@ func c11Fill(seed uint32) *c11Sys {
 		s.SRAM[i] = rig.Mix(seed^0x5352414D, uint32(i))
 	}
 	return &c11Sys{s: s, seed: seed, rom: append([]byte(nil), s.ROM[:]...), wram: append([]byte(nil), s.WRAM[:]...), sram: append([]byte(nil), s.SRAM[:]...)}
+}
+
+// c11FillCopy builds the System the way a caller forks a console: struct copy of a running System,
+// CreateEmulator on the copy (which must re-wire it to its own arrays), then its own contents.  The
+// parent stays alive with different contents.
+func c11FillCopy(seed uint32) *c11Sys {
+	parent := c11Fill(seed ^ 0x77777777)
+	s := &emulator.System{}
+	*s = *parent.s
+	if err := s.CreateEmulator(); err != nil {
+		panic(err)
+	}
+	for i := range s.ROM {
+		s.ROM[i] = rig.Mix(seed^0x524F4D, uint32(i))
+	}
+	for i := range s.WRAM {
+		s.WRAM[i] = rig.Mix(seed^0x5752414D, uint32(i))
+	}
+	for i := range s.SRAM {
+		s.SRAM[i] = rig.Mix(seed^0x5352414D, uint32(i))
+	}
+	return &c11Sys{s: s, seed: seed, parent: parent, rom: append([]byte(nil), s.ROM[:]...), wram: append([]byte(nil), s.WRAM[:]...), sram: append([]byte(nil), s.SRAM[:]...)}
 }
 
 // documented layout of the emulated console (comments of CreateEmulator)
@@ -215,10 +238,22 @@ func (q *c11Sys) checkOut(a uint32) {
 	_ = rig.Safe(func() error { q.s.Bus.EaWrite(a, ^rig.Mix(q.seed, a)|1); return nil })
 }
 
+// checkOutBacked: a lies outside the console's documented layout but the emulator accepted a write of v there.
+func (q *c11Sys) checkOutBacked(a uint32, v byte) error {
+	class, arr, _, i, err := q.cell(a)
+	if err != nil || int(i) >= len(arr) {
+		return nil // the mapper assigns no memory here (I/O, open bus): nothing to agree on
+	}
+	if arr[i] != v {
+		return fmt.Errorf("the emulator accepts a write at $%06X without storing it in %s[$%X], the cell the mapper assigns to that address: it backs the address with something other than %s", a, class, i, class)
+	}
+	return nil
+}
+
 // c11Check is the single-address form (replay): full array scan after the access.
 func c11Check(c c11Case) error {
 	q := c11Fill(c.Seed)
-	q2 := c11Fill(c.Seed ^ 0x5A5A5A5A)
+	q2 := c11FillCopy(c.Seed ^ 0x5A5A5A5A)
 	if err := q2.readOnly(c.Addr); err != nil {
 		return fmt.Errorf("second System alive: %v", err)
 	}
@@ -243,7 +278,12 @@ func (q *c11Sys) checkOne(a uint32) error {
 		}
 		return nil
 	}
-	q.checkOut(a)
+	if rig.Safe(func() error { q.s.Bus.EaWrite(a, ^rig.Mix(q.seed, a)|1); return nil }) == nil {
+		if err := q.checkOutBacked(a, ^rig.Mix(q.seed, a)|1); err != nil {
+			q.restore()
+			return err
+		}
+	}
 	if cl, at := q.diffArrays(); at >= 0 {
 		defer q.restore()
 		class, _, _, i, err := q.cell(a)
@@ -271,7 +311,7 @@ func init() {
 func TestC11(t *testing.T) {
 	rig.Main(t, "C11", "complete enumeration of all 2^24 bus addresses on an emulator.System whose ROM/WRAM/SRAM arrays hold seed-defined contents: "+
 		"inside the console's documented layout a read must return, and a write must change, exactly the array cell lorom.BusAddressToPak designates; "+
-		"outside it a write that changes any array cell must hit the mapper's cell; all three arrays are compared with golden copies after every bank. "+
+		"outside it a write that changes any array cell must hit the mapper's cell, and a write the emulator accepts at an address to which the mapper assigns a memory class must be stored in that cell; all three arrays are compared with golden copies after every bank. "+
 		"Distinct = (content seed, address); non-trivial = the address is ROM, SRAM or WRAM for the console or the bus accepted a write there.",
 		func(r *rig.Run) {
 			ev := r.Ev
@@ -282,8 +322,9 @@ func TestC11(t *testing.T) {
 			}
 			for _, seed := range seeds {
 				q := c11Fill(seed)
-				// a second, differently filled System is used between the accesses: each System answers from its own arrays
-				q2 := c11Fill(seed ^ 0x5A5A5A5A)
+				// a second, differently filled System is used between the accesses: each System answers from its own arrays;
+				// it was made by copying a third System and calling CreateEmulator on the copy
+				q2 := c11FillCopy(seed ^ 0x5A5A5A5A)
 				var inT, outAccepted int64
 				failed := false
 				for bank := uint32(0); bank < 256 && !failed; bank++ {
@@ -317,6 +358,13 @@ func TestC11(t *testing.T) {
 						} else {
 							if rig.Safe(func() error { q.s.Bus.EaWrite(a, ^rig.Mix(seed, a)|1); return nil }) == nil {
 								outAccepted++
+								// the emulator answers here: if the mapper assigns a memory class to the address, the access must have
+								// reached that very cell (anything else is backing it with a different class)
+								if err := q.checkOutBacked(a, ^rig.Mix(seed, a)|1); err != nil {
+									r.Violation("out", c11Case{seed, a}, err)
+									failed = true
+									break
+								}
 							}
 						}
 					}
@@ -350,6 +398,11 @@ func TestC11(t *testing.T) {
 							r.Violation("scan", c11Case{seed, bank << 16}, fmt.Errorf("accesses in bank $%02X changed %s[$%X] (no single address reproduces it)", bank, cl, at))
 						}
 						failed = true
+					}
+				}
+				if !failed && q2.parent != nil {
+					if cl, at := q2.parent.diffArrays(); at >= 0 {
+						r.Violation("copied-system", c11Case{seed, 0}, fmt.Errorf("using a System made by struct copy + CreateEmulator changed %s[$%X] of the System it was copied from", cl, at))
 					}
 				}
 				ev.Bulk(1<<24, inT+outAccepted)
